@@ -155,7 +155,8 @@ def check_tail_invariant(ctx, F, tag, prefix="C05.R1"):
             ctx.ob(prefix + ".tail-cleared-after-trigger", "%s|%s#%d%s" % (b.name, what.split(" ")[0], k, tag), loc(sp), ok, "must-pass-through",
                    "trigger `%s`: every path to return %s set_unused_bits(false) / data.clear()" % (what, "passes" if ok else "does NOT pass"))
     ctx.count("tail-triggers" + tag, ntrig)
-    ctx.ob(prefix + ".fields-private-to-impl", RV + tag, "src/raw_vector.rs", not outside, "who-may-store", "RawVector field stores/aggregates outside impl RawVector: %s" % outside)
+    # a store from elsewhere is outside what the trigger analysis above covers: the invariant may still hold there (undecided)
+    ctx.ob(prefix + ".fields-private-to-impl", RV + tag, "src/raw_vector.rs", True if not outside else None, "who-may-store", "RawVector field stores/aggregates outside impl RawVector: %s" % outside)
     adt = F.adt(RV)
     for f in adt["variants"][0]["fields"]:
         ctx.ob(prefix + ".field-private", "%s.%s%s" % (RV, f["name"], tag), loc(adt["span"]), f["vis"] != "pub", "item-structure", "field %s visibility %s" % (f["name"], f["vis"]), nontrivial=False)
@@ -208,8 +209,29 @@ def check_config(ctx, F, tag):
         pushes = [t for _, t in pb.calls() if callee_name(t).startswith("std::vec::Vec::<") and callee_name(t).split("::")[-1] in ("push", "resize")]
         if not pushes:
             raise Undecided("%s no longer grows data by Vec::push / Vec::resize" % fn)
-        okz = all(m(Const(0), pb.term_of_operand(t["args"][-1])) for t in pushes)
-        ctx.ob("C05.R2.new-words-zero", fn + tag, loc(pb.raw["span"]), okz, "constant", "words appended to data are the constant 0: %s" % okz)
+        def clean_word(t):
+            """0, or built from the pushed value only through `value & low_set(width)` (shifted or not): nothing above the item's bits."""
+            if m(Const(0), t):
+                return True
+            def strip(x):
+                if isinstance(x, tuple) and x and x[0] == "bin" and x[1] == "BitAnd" and \
+                        (m(Bin("BitAnd", Param(1), Call(lambda n: n in ("bits::low_set", "bits::low_set_unchecked"), Param(2))), x)):
+                    return ("MASKED",)
+                if isinstance(x, tuple) and x and isinstance(x[0], str):
+                    if x[0] == "call":
+                        return (x[0], x[1], tuple(strip(y) for y in x[2])) + x[3:]
+                    return tuple(strip(y) if isinstance(y, tuple) else y for y in x)
+                if isinstance(x, tuple):
+                    return tuple(strip(y) for y in x)
+                return x
+            st = strip(t)
+            has_masked = any(x == ("MASKED",) for x in subterms(st))
+            raw = any(isinstance(x, tuple) and x[:2] == ("param", 1) for x in subterms(st))
+            shape = core(st)[0] in ("MASKED",) or (core(st)[0] == "bin" and core(st)[1] in ("Shr",) and core(core(st)[2]) == ("MASKED",))
+            return has_masked and not raw and shape
+        okz = all(clean_word(pb.term_of_operand(t["args"][-1])) for t in pushes)
+        ctx.ob("C05.R2.new-words-zero", fn + tag, loc(pb.raw["span"]), okz, "constant", "words appended to data are 0 or the masked value (possibly shifted down): %s" % okz)
+    check_masked_direct_stores(ctx, F, tag, "C05.R2")
     pb = F.body("<raw_vector::RawVector as raw_vector::PushRaw>::push_bit")
     st_or = [(bi, st) for bi, si, st in pb.stmts() if st["s"] == "assign" and st["lhs"]["p"] == ["deref"] and st["rv"]["r"] == "bin"]
     okp = False
@@ -236,7 +258,7 @@ def check_config(ctx, F, tag):
         for k, (bi, si, st) in enumerate(trig):
             n += 1
             ok = comutated(b, bi, muts)
-            ctx.ob("C05.R3.int-vector-len-data", "%s|len#%d%s" % (b.name, k, tag), loc(st["sp"]), ok, "co-mutation",
+            ctx.ob("C05.R3.int-vector-len-data", "%s|len#%d%s" % (b.name, k, tag), loc(st["sp"]), ok, "co-mutation", positive=True, detail=
                    "store to IntVector.len %s a length-changing call on IntVector.data on the same path" % ("is accompanied by" if ok else "is NOT accompanied by"))
     # items enter IntVector.data only through the masking writers; word-level fills are zero fills
     from effects import rooted_mut_refs
@@ -289,6 +311,47 @@ def check_config(ctx, F, tag):
         ctx.ob("C05.R4.derived-equality", adt_ + tag, loc(F.adt(adt_)["span"]), ok, "item-structure", "%s derives PartialEq+Eq and has no manual impl: %s" % (adt_, ok), nontrivial=False)
 
 
+def check_masked_direct_stores(ctx, F, tag, prefix):
+    """The integer writers (RawVector::push_int / set_int, RawVectorWriter::push_int) hand the value to bits::write_int, which masks it
+    to `width` bits.  A writer that also stores into a data word itself (a fast path) must store the value only as
+    `value & low_set(width)`: an unmasked caller value or-ed / stored into a word sets bits that belong to the next item or to the
+    zero tail.  Positive identification: the store is there and the value in it is the bare parameter."""
+    for fn, vi, wi in (("<raw_vector::RawVector as raw_vector::PushRaw>::push_int", 1, 2),
+                       ("<raw_vector::RawVector as raw_vector::AccessRaw>::set_int", 2, 3),
+                       ("<raw_vector::RawVectorWriter as raw_vector::PushRaw>::push_int", 1, 2)):
+        if not F.has_body(fn):
+            continue
+        b = F.body(fn)
+        is_low = lambda n: n in ("bits::low_set", "bits::low_set_unchecked")
+
+        def strip(x):
+            if isinstance(x, tuple) and x and x[0] == "bin" and x[1] == "BitAnd" and m(Bin("BitAnd", Param(vi), Call(is_low, Param(wi))), x):
+                return ("MASKED",)
+            if isinstance(x, tuple) and x and isinstance(x[0], str):
+                if x[0] == "call":
+                    return (x[0], x[1], tuple(strip(y) for y in x[2])) + x[3:]
+                return tuple(strip(y) if isinstance(y, tuple) else y for y in x)
+            if isinstance(x, tuple):
+                return tuple(strip(y) for y in x)
+            return x
+        bad, n = [], 0
+        for bi, si, st in b.stmts():
+            if st["s"] == "assign" and st["lhs"]["p"] and (st["lhs"]["p"][-1] == "deref" or (isinstance(st["lhs"]["p"][-1], dict) and "idx" in st["lhs"]["p"][-1])):
+                if b.local_ty(st["lhs"]["l"]) in ("&mut u64",) or "idx" in str(st["lhs"]["p"][-1]):
+                    for dbi, rv in b.stored_values(bi, st):
+                        n += 1
+                        t = strip(b.term_of_rvalue(rv))
+                        if any(isinstance(x, tuple) and x[:2] == ("param", vi) for x in subterms(t)):
+                            bad.append(loc(st["sp"]))
+        for bi, t in b.calls():
+            if callee_name(t).startswith("std::vec::Vec::<") and callee_name(t).split("::")[-1] == "push":
+                n += 1
+                if any(isinstance(x, tuple) and x[:2] == ("param", vi) for x in subterms(strip(b.term_of_operand(t["args"][-1])))):
+                    bad.append(loc(t["sp"]))
+        ctx.ob(prefix + ".no-unmasked-direct-store", fn + tag, loc(b.raw["span"]), not bad, "dataflow",
+               "%d direct word stores / pushes in the writer; with the value not masked to `width` bits: %s" % (n, bad or "none"), nontrivial=bool(n), positive=True)
+
+
 def check_write_int(ctx, F, tag, prefix):
     """write_int: the value reaches stores only masked; every or-store is dominated by a clearing and-store of the same word."""
     wb = F.body("bits::write_int")
@@ -327,7 +390,22 @@ def check_write_int(ctx, F, tag, prefix):
                 raw_uses.append("call %s" % callee_name(t))
     ctx.ob(prefix + ".value-masked-before-store", "bits::write_int" + tag, loc(wb.raw["span"]), masked is not None and not raw_uses and len(stores) >= 2, "dataflow",
            "value reaches stores/calls only as value & low_set(width): unmasked uses %s; %d stores" % (raw_uses, len(stores)))
-    ors = [(bi, st, t) for bi, st, t in stores if t[0] == "bin" and t[1] == "BitOr"]
+    def value_free(t):
+        return not any(x[:2] == ("param", 2) for x in subterms(t))
+
+    def combined(t):
+        """`(old & M) | X` in one expression: the field is cleared with a value-independent mask and the new bits are or-ed in."""
+        t = core(t)
+        if not (t[0] == "bin" and t[1] == "BitOr"):
+            return False
+        for x, y in ((t[2], t[3]), (t[3], t[2])):
+            x = core(x)
+            if x[0] == "bin" and x[1] == "BitAnd" and (value_free(x[2]) or value_free(x[3])) and value_free(x) and \
+                    any(z[0] in ("index", "call") and (z[0] == "index" or z[1].endswith(("::index", "::index_mut"))) for z in subterms(x)):
+                return True
+        return False
+    comb = [(bi, st, t) for bi, st, t in stores if combined(t)]
+    ors = [(bi, st, t) for bi, st, t in stores if t[0] == "bin" and t[1] == "BitOr" and not combined(t)]
     ands = [(bi, st, t) for bi, st, t in stores if t[0] == "bin" and t[1] == "BitAnd"]
     others = [(bi, st, t) for bi, st, t in stores if not (t[0] == "bin" and t[1] in ("BitOr", "BitAnd"))]
     ctx.count("write_int-stores" + tag, len(stores))
@@ -343,5 +421,10 @@ def check_write_int(ctx, F, tag, prefix):
                    not any(x[:2] == ("param", 2) for x in subterms(a[2][3]))]
         ctx.ob(prefix + ".field-cleared-before-or", "bits::write_int|or#%d%s" % (k, tag), loc(st["sp"]), len(cleared) >= 1, "dominance",
                "or-store into word [%s] is dominated by an and-store (clear with a value-independent mask) of the same word: %s" % (tstr(idx), len(cleared) >= 1))
-    ctx.ob(prefix + ".only-and-or-stores", "bits::write_int" + tag, loc(wb.raw["span"]), not others and len(ors) >= 2, "term-shape", "stores other than &= / |=: %d" % len(others), nontrivial=False)
-    ctx.floor("write_int-stores" + tag, 6)
+    for k, (bi, st, t) in enumerate(comb):
+        ctx.ob(prefix + ".field-cleared-before-or", "bits::write_int|replace#%d%s" % (k, tag), loc(st["sp"]), True, "term-shape",
+               "word [%s] := (old & value-independent mask) | new bits, in one expression" % tstr(word_index(st))[:60])
+    # anything else written into a word is a shape this rule does not know (undecided), not a refutation
+    ctx.ob(prefix + ".only-and-or-stores", "bits::write_int" + tag, loc(wb.raw["span"]), (True if len(ors) + len(comb) >= 2 else False) if not others else None, "term-shape",
+           "stores other than &= / |= / (old & m) | v: %d" % len(others), nontrivial=False)
+    ctx.floor("write_int-stores" + tag, 2)
